@@ -75,9 +75,12 @@ func genC17World(r *Rng) *Plan {
 				// bubble's clock can never advance (DESIGN.md §10.6, limits)
 				kinds := []string{"refuse", "reset", "truncate"}
 				if cfg.Provider == "okta" {
-					kinds = append(kinds, "stall")
+					// a slow provider, not a silent one: the proxy's call to the authenticator and the authenticator's call
+					// to the provider carry the same five-second timeout and would expire at the same virtual instant,
+					// which of the two timers the runtime serves first is not the seed's decision (DESIGN.md §10.8)
+					kinds = append(kinds, "delay")
 				}
-				p.Steps = append(p.Steps, Step{Op: "net", Name: "auth>" + idpBack, Sub: kinds[r.Intn(len(kinds))], Arg: r.Range(1, 4), Arg2: r.Range(10, 200)})
+				p.Steps = append(p.Steps, Step{Op: "net", Name: "auth>" + idpBack, Sub: kinds[r.Intn(len(kinds))], Arg: r.Range(1, 4), Arg2: r.Range(10, 200), Dur: r.PickDur(100*time.Millisecond, time.Second, 4*time.Second)})
 			}
 		case 6:
 			if nested && !faulting {
